@@ -167,6 +167,14 @@ def make_history(pname, flags):
 
 
 # ---- string methods -------------------------------------------------------------------------------
+PRESET = [0, 1, 2, 5, "x"]
+REPLACERS = {
+    "plain": "return '<' + calls.length + '>';",
+    "reads": "seen.push(R.lastIndex); return '<' + calls.length + '>';",
+    "execs": "seen.push(R.test('ba')); return '<' + calls.length + '>';",
+    "sets": "R.lastIndex = 1; return '<' + calls.length + '>';",
+    "throws": "if (calls.length === 2) { throw 'boom'; } return '<' + calls.length + '>';",
+}
 TEMPLATES = ["x", "", "$$", "$&", "[$`]", "[$']", "$1", "$2", "$01", "$10", "$0", "$", "a$", "$$1", "<$&$1>", "$&$&", "$3", "$$$&", "$'$`"]
 LIMITS = [UNDEF, 0, 1, 2, 3, 10, -1, 2 ** 32, 2 ** 32 + 1, 1.9, NAN, "2", NULL]
 
@@ -182,15 +190,17 @@ def make_method(method, pname, flags, maxlen):
     ast = PATTERNS[pname]
     src = RR.render(ast)
 
-    def h(t, n, i0, i1, i2, i3):
+    def h(t, v, n, i0, i1, i2, i3):
         s = subject(n, [i0, i1, i2, i3], maxlen)
-        grid = TEMPLATES if method in ("replace", "replaceAll") else LIMITS if method == "split" else [None]
+        grid = TEMPLATES if method in ("replace", "replaceAll") else LIMITS if method == "split" else \
+            sorted(REPLACERS) if method == "replace-fn" else [None]
         param = pick(t, grid)
+        preset = pick(v, PRESET)
         with NoTracing():
             from ..jsrun import eval_concrete
             from microjs.errors import JSError
-            rx = RR.RRegExp(ast, flags, 0)
-            g = {"P": src, "F": flags, "S": s}
+            rx = RR.RRegExp(ast, flags, preset)
+            g = {"P": src, "F": flags, "S": s, "V": preset}
             if method == "match":
                 r = RR.str_match(s, rx)
                 if r is None:
@@ -199,11 +209,11 @@ def make_method(method, pname, flags, maxlen):
                     want = list(r)
                 else:
                     want = [r[0], s] + ref_groups(r[1])
-                script = ("var R = new RegExp(P, F); var m = S.match(R); "
+                script = ("var R = new RegExp(P, F); R.lastIndex = V; var m = S.match(R); "
                           "[m === null ? null : (R.global ? m : [m.index, m.input].concat(m)), R.lastIndex]")
             elif method == "search":
                 want = RR.str_search(s, rx)
-                script = "var R = new RegExp(P, F); [S.search(R), R.lastIndex]"
+                script = "var R = new RegExp(P, F); R.lastIndex = V; [S.search(R), R.lastIndex]"
             elif method in ("replace", "replaceAll"):
                 tmpl = param
                 g["T"] = tmpl
@@ -211,22 +221,39 @@ def make_method(method, pname, flags, maxlen):
                     want = "TypeError"
                 else:
                     want = RR.str_replace(s, rx, tmpl)
-                script = ("var R = new RegExp(P, F); var o; try { o = S.%s(R, T); } catch (e) { o = e.name; } [o, R.lastIndex]" % method)
+                script = ("var R = new RegExp(P, F); R.lastIndex = V; var o; try { o = S.%s(R, T); } catch (e) { o = e.name; } [o, R.lastIndex]" % method)
             elif method == "replace-fn":
                 calls = []
+                seen = []
+                kind = param
+
+                class Boom(Exception):
+                    pass
 
                 def call(fn, args):
                     calls.append(ref_groups(args[:-2]) + list(args[-2:]))
+                    if kind == "reads":
+                        seen.append(rx.last_index)
+                    elif kind == "execs":
+                        seen.append(RR.builtin_exec(rx, "ba") is not None)
+                    elif kind == "sets":
+                        rx.last_index = 1
+                    elif kind == "throws" and len(calls) == 2:
+                        raise Boom()
                     return "<%d>" % len(calls)
-                want = [RR.str_replace(s, rx, None, call), calls]
-                script = ("var R = new RegExp(P, F); var calls = []; var o = S.replace(R, function() { "
+                try:
+                    out = RR.str_replace(s, rx, None, call)
+                except Boom:
+                    out = "threw"
+                want = [out, calls, seen]
+                script = ("var R = new RegExp(P, F); R.lastIndex = V; var calls = []; var seen = []; var o; try { o = S.replace(R, function() { "
                           "var a = []; for (var i = 0; i < arguments.length; i++) { a.push(arguments[i]); } calls.push(a); "
-                          "return '<' + calls.length + '>'; }); [[o, calls], R.lastIndex]")
+                          + REPLACERS[kind] + " }); } catch (e) { o = 'threw'; } [[o, calls, seen], R.lastIndex]")
             else:
                 lim = param
                 g["L"] = D.to_engine(lim)
                 want = ref_groups(RR.str_split(s, rx, to_uint32_limit(lim)))
-                script = "var R = new RegExp(P, F); [S.split(R, L), R.lastIndex]"
+                script = "var R = new RegExp(P, F); R.lastIndex = V; [S.split(R, L), R.lastIndex]"
             try:
                 res = js_result(eval_concrete(script, g))
             except JSError as e:
@@ -238,7 +265,7 @@ def make_method(method, pname, flags, maxlen):
             if not _same_value(D.to_engine(res[1]) if False else res[1], rx.last_index):
                 return "%s: lastIndex afterwards engine %r, ECMAScript %r" % (what, res[1], rx.last_index)
         return True
-    h.__annotations__ = {"t": int, "n": int, "i0": int, "i1": int, "i2": int, "i3": int, "return": bool}
+    h.__annotations__ = {"t": int, "v": int, "n": int, "i0": int, "i1": int, "i2": int, "i3": int, "return": bool}
     return h
 
 
@@ -260,7 +287,13 @@ def harnesses():
                               require=("judged",), group="histories", functions=FNS,
                               tier="quick" if pname in ("a", "a-star", "empty", "ab-group") else "thorough"))
             for method in ("match", "search", "replace", "replaceAll", "replace-fn", "split"):
-                quick = pname in ("a-star", "ab-group", "boundary") and flags in ("", "g", "y")
+                quick = pname in ("a", "a-star", "ab-group", "boundary") and flags in ("", "g", "y", "gi")
+                hs.append(Harness(id="C20.%s2.%s.%s" % (method, pname, fl), fn=make_method(method, pname, flags, 2),
+                                  bounds=["pattern /%s/%s" % (RR.render(PATTERNS[pname]), flags), "subject length <= 2 over {a,b,c}; "
+                                          "lastIndex preset, template / limit / replacer kind: solver-chosen indices"],
+                                  per_path=60, budget=300, require=("judged",), group="string methods", functions=FNS,
+                                  tier="quick" if quick else "thorough"))
+                quick = False
                 hs.append(Harness(id="C20.%s.%s.%s" % (method, pname, fl), fn=make_method(method, pname, flags, 3),
                                   bounds=["pattern /%s/%s" % (RR.render(PATTERNS[pname]), flags), "subject length <= 3 over {a,b,c}",
                                           "replacement template: index into %r" % (TEMPLATES,) if method.startswith("replace") and method != "replace-fn"
